@@ -127,10 +127,10 @@ def _grid_stub(ctx):
     return _GridRecorder
 
 
-@ob("C07.generate", cases=[dict(dim=d) for d in (1, 2, 3)], mods=["darsia.utils.grid", "darsia.image.image"], funcs=FUNCS,
+@ob("C07.generate", cases=[dict(dim=d, payload=p) for d in (1, 2, 3) for p in ("scalar", "series", "vector", "vector-series")], mods=["darsia.utils.grid", "darsia.image.image"], funcs=FUNCS,
     stubs={"Grid": _grid_stub}, skip=("Grid.",), samples=(3, 10),
     cite="image-derived grids for random images", note="all image shapes / dimensions (ShapeOnly), incl. a second image after a first (history)")
-def c07_generate(ctx, dim):
+def c07_generate(ctx, dim, payload="scalar"):
     before = frame.snapshot(FRAME_MODS)
     n0 = ctx.ints("m", dim, lo=1, sample=(1, 5))
     d0 = ctx.reals("e", dim, pos=True, sample=(0.5, 4.0))
@@ -138,8 +138,14 @@ def c07_generate(ctx, dim):
     darsia.generate_grid(first)
     n = ctx.ints("n", dim, lo=1, sample=(1, 5))
     d = ctx.reals("d", dim, pos=True, sample=(0.5, 4.0))
-    img = darsia.Image(ctx.shape_array(n), space_dim=dim, scalar=True, dimensions=list(d))
+    # the grid is the grid of the SPATIAL axes: time steps (2) and components (3) of series / vector images are payload, wherever they sit in the array
+    full = list(n) + ([2] if payload in ("series", "vector-series") else []) + ([3] if payload in ("vector", "vector-series") else [])
+    kw = dict(space_dim=dim, scalar=payload in ("scalar", "series"), dimensions=list(d))
+    if payload in ("series", "vector-series"):
+        kw.update(series=True, time=[0.0, 1.0])
+    img = darsia.Image(ctx.shape_array(full), **kw)
     g = darsia.generate_grid(img)
+    ctx.ensure("grid has one axis per spatial dimension", len(g.shape) == dim)
     ctx.ensure("grid shape is the image's voxel counts", eq(list(g.shape), list(n)))
     ctx.ensure("grid voxel size is the image's voxel size", eq(list(g.voxel_size), [d[k] / n[k] for k in range(dim)]))
     ctx.ensure("no module- or class-level state written (frame)", frame.diff(before, frame.snapshot(FRAME_MODS)) == [])
